@@ -248,14 +248,14 @@ def c_platform_bounded():
                 functions=["litex.build.generic_platform.ConstraintManager.request/lookup_request (bounded)"], samples=[dict(bounded="ConstraintManager", evaluations=evals)])
 
 def c_platform_clients_bounded():
-    """request / request_all / request_remaining in every order (<= 3 calls out of 9 kinds): whatever a call RETURNS to its client, no platform signal
+    """request / request_all / request_remaining in every order (<= 3 calls out of 12 kinds, loose requests included): whatever a call RETURNS to its client, no platform signal
     is handed to two clients ("platform IO resources ... are each granted to at most one client"), judged on the returned objects - not on the manager's books"""
     from litex.build.generic_platform import ConstraintManager, Pins, Subsignal, ConstraintError
     from migen.fhdl.tools import list_signals
     from migen.genlib.record import Record
     io = [("led", 0, Pins("A1")), ("led", 1, Pins("A2")), ("led", 2, Pins("A3")), ("uart", 0, Subsignal("tx", Pins("B1")), Subsignal("rx", Pins("B2"))), ("clk", 0, Pins("C1"))]
     ops = [("request", "led", 0), ("request", "led", 1), ("request", "led", 2), ("request", "led", None), ("request_all", "led", None), ("request_remaining", "led", None),
-           ("request", "uart", None), ("request", "uart", 0), ("request_all", "clk", None)]
+           ("request", "uart", None), ("request", "uart", 0), ("request_all", "clk", None), ("request_loose", "led", 0), ("request_loose", "uart", 0), ("request_loose", "led", None)]
     def leaves(o):
         if isinstance(o, Record): return [x for x in o.flatten()]
         return list(list_signals(o))
@@ -264,14 +264,15 @@ def c_platform_clients_bounded():
         cm = ConstraintManager(list(io), []); owner = {}
         for pos, k in enumerate(seq):
             op, name, num = ops[k]; evals += 1
-            try: r = getattr(cm, op)(name, num) if op == "request" else getattr(cm, op)(name)
+            try: r = cm.request(name, num) if op == "request" else (cm.request(name, num, loose=True) if op == "request_loose" else getattr(cm, op)(name))
             except (ConstraintError, ValueError): continue
+            if r is None: continue              # a loose request that found nothing grants nothing
             for sg in leaves(r):
                 if id(sg) in owner and owner[id(sg)] != pos:
                     bad.append(dict(sequence=[f"{ops[j][0]}({ops[j][1]!r}{'' if ops[j][2] is None else ', ' + str(ops[j][2])})" for j in seq], what=f"call #{pos} received a signal already handed to call #{owner[id(sg)]}")); break
                 owner[id(sg)] = pos
         if len(bad) > 5: break
-    return dict(results=[res("ConstraintManager.request/request_all/request_remaining[<=3 calls x 9 kinds]: no signal handed to two clients", "bounded", BOUNDED_OK if not bad else VIOLATED, 0,
+    return dict(results=[res("ConstraintManager.request/request_all/request_remaining[<=3 calls x 12 kinds]: no signal handed to two clients", "bounded", BOUNDED_OK if not bad else VIOLATED, 0,
                              "exhaustive small-scope enumeration through the real functions", evaluations=evals, witness=bad[:3], replayed=True)],
                 functions=["litex.build.generic_platform.ConstraintManager.request_all/request_remaining (bounded, judged on the returned signals)"], samples=[dict(bounded="ConstraintManager clients", evaluations=evals)])
 
